@@ -51,6 +51,18 @@ def cells():
         for gname in ("chain2", "diamond", "multi_used", "multi_merge", "exhaust_end", "down_mid", "overlap_mid"):
             C.append((gname, B3, mode, None, ("all",), (), 2))
             C.append((gname, B3, mode, None, ("all",), (), 4))
+    # failures while mailboxes are FULL (capacity 1-2, 5 chunks): senders blocked in send() must be released by the kill
+    B5 = (0, 1, 2, 3, 4, 5)
+    for mode in ("eager", "lazy"):
+        for cap in (1, 2):
+            C.append(("chain2", B5, mode, ("plugin", "mp", 2), ("all",), (), cap))
+            C.append(("chain2", B5, mode, ("saver", "mp", 1), ("all",), (), cap))
+            C.append(("chain2", B5, mode, None, ("close", 1), (), cap))
+            C.append(("chain3", B5, mode, ("plugin", "fl", 1), ("all",), (), cap))
+            C.append(("chain3", B5, mode, ("plugin", "mp", 3), ("all",), (), cap))
+        C.append(("multi_used", B5, mode, ("plugin", "nn", 1), ("all",), (), 2))
+        C.append(("multi_used", B5, mode, ("saver", "mo_b", 2), ("all",), (), 2))
+        C.append(("diamond", B5, mode, ("plugin", "mg", 2), ("all",), (), 2))
     return C
 
 
